@@ -44,3 +44,37 @@ for _p in sorted(_glob.glob(_os.path.join(_os.path.dirname(_os.path.abspath(__fi
     _spec.loader.exec_module(_m)
     PROPS[_m.PROP["id"]] = _m.PROP
     HOOK_COMMITS.extend(getattr(_m, "HOOK_COMMITS", []))
+
+_QUERY_KINDS = {
+    1: ("query-mismatch", "parser.Parse + query.Select returned a result that differs from Model.Query.eval_query (exact sequence, multiset for joins, or the ORDER BY checker: no inversion / sub-multiset / length / key classes)", True),
+    4: ("oracle-wf", "option.TrimSpace / ParseInt / ParseBool as observed differ from the modelled parsers (Model.Conv)", True),
+}
+_QUERY_EXPECTED = lambda kind, cid: "Eval vm_compute in (map expected_query (filter (fun c => N.eqb (qid c) %d) qcases))." % cid
+_QUERY_ASSUME = ["column names are resolved to positions by the harness (Header.FieldIndex is not modelled); HAVING, LATERAL, NATURAL/USING, sub-queries inside expressions and recursive CTEs are outside the modelled fragment and never generated"]
+
+PROPS["C03"] = dict(
+    theorem_file="Properties/C03.v", kinds=_QUERY_KINDS, expected=_QUERY_EXPECTED,
+    trusted=COMMON_TRUST + [FLOAT_TRUST, ORACLE_TRUST], assumptions=_QUERY_ASSUME,
+    level_text="Proof: Coq theorems (Properties/C03.v) over ALL tables and conditions: WHERE returns exactly the order-preserving sublist of rows whose condition is TRUE (an evaluation error is an error of the whole clause, never a partial result); CROSS/INNER/LEFT/RIGHT/FULL joins of the model equal their list-comprehension definitions, with membership characterisations (pairs with a TRUE condition; each unmatched row exactly once, NULL-padded; nothing else) and compositionality over contiguous ranges of left rows (the goroutine split). The model (Model/Query.v: sources incl. derived tables, joins nested to any depth, WHERE, select list) is tied to the code by running generated queries through parser.Parse + query.Select at cpu 1 and 4 and comparing rows (sequence for single sources, multiset for joins) with eval_query inside Coq. Partial: NATURAL/USING/LATERAL, sub-queries in expressions, recursive CTEs and name resolution are not modelled.",
+    level_note="Trusted: Coq kernel + vm_compute; primitive floats; Go harness incl. its resolution of column names to positions; string oracles. Join results are compared as multisets (the property does not fix join order).",
+    design_ref="DESIGN.md section 5 (C03)")
+
+PROPS["C04"] = dict(
+    theorem_file="Properties/C04.v",
+    kinds={1: ("key-or-query-mismatch", "SerializeComparisonKeys / GROUP BY / DISTINCT / set operator / aggregate result differs from the model (Model.Key, Model.Query)", True),
+           2: ("bucket-identity", "on the observed key strings two different tuples share a key or two equal tuples got different keys", True),
+           4: ("oracle-wf", "string oracle inconsistent with the modelled parsers", True)},
+    expected=lambda kind, cid: ("Eval vm_compute in (map expected_keys (filter (fun c => N.eqb (kid c) %d) kcases))." % cid) if cid >= 1000000 else _QUERY_EXPECTED(kind, cid),
+    trusted=COMMON_TRUST + [FLOAT_TRUST, ORACLE_TRUST, "strconv.FormatFloat(f,'f',-1,64) never emits ':' or '\\' and is injective on floats up to the identification of NaNs (hypothesis of C04_key_injective; the decimal text of every float met is carried as data and compared)"],
+    assumptions=_QUERY_ASSUME + ["MEDIAN, STDEV/VAR, LISTAGG, JSON_AGG and user-defined aggregates are not modelled (their bucket is the same group_rows bucket; only COUNT/SUM/AVG/MIN/MAX [DISTINCT] and COUNT(*) are compared)"],
+    level_text="Proof: Coq theorems (Properties/C04.v): the comparison-key codec (after the repair that escapes the separator) is injective on tuples of equal length - same key string iff equal normal forms column by column (decoder proof over all strings; the unrepaired codec is refuted by a witness); key equality is an equivalence; GROUP BY buckets are a partition of the rows with no empty bucket; two rows share a bucket iff their keys are equal; the groups handed to the aggregates partition the filtered rows; DISTINCT/UNION keep exactly one row per bucket; EXCEPT/INTERSECT [ALL] keep exactly the rows whose key is absent/present. Tied to the code (i) by calling query.SerializeComparisonKeys on adversarial tuples (separator, tags, cross-type equal values, NULL/UNKNOWN, strict-equal) and comparing every key string and the bucket identity, (ii) by GROUP BY/DISTINCT/set-operator/aggregate queries through parser+query.Select compared with the model. Partial: MEDIAN/STDEV/VAR/LISTAGG/JSON_AGG/user aggregates only share the proven bucket, their arithmetic is not modelled.",
+    level_note="Trusted: Coq kernel + vm_compute; primitive floats (FloatAxioms); FormatFloat oracle; Go harness; string oracles.",
+    design_ref="DESIGN.md section 5 (C04)")
+
+PROPS["C07"] = dict(
+    theorem_file="Properties/C07.v", kinds=_QUERY_KINDS, expected=_QUERY_EXPECTED,
+    trusted=COMMON_TRUST + [FLOAT_TRUST, ORACLE_TRUST, "sort.Sort of the Go standard library sorts correctly for a strict weak order (the implementation's output is checked for inversions on every case, not assumed)"],
+    assumptions=_QUERY_ASSUME + ["sort keys are columns holding mutually comparable values (the property's quantifier); under --strict-equal, texts differing only in case are generated never (sort_value_test.go pins Less = FALSE both ways for them, which is not an order; see DESIGN.md)", "float-to-text formatting is not modelled: ordering a non-text float against a text value is outside the fragment"],
+    level_text="Proof: Coq theorems (Properties/C07.v): the reference sort is a permutation of its input for every comparator, and has no inversion wherever the comparator is a strict weak order on the keys at hand; OFFSET n is skipn (max 0 n) with the four frame equations; LIMIT n is firstn (max 0 n); WITH TIES adds exactly the maximal run of following rows whose keys are equivalent to the last kept row's; LIMIT 0 WITH TIES is empty; PERCENT above 100 keeps everything, below 0 nothing, and counts the pre-offset rows. The model (comparator of sort_value.go, LIMIT/OFFSET of view.go after four repairs) is tied to the code by ORDER BY/LIMIT/OFFSET queries whose output is checked in Coq: no inversion under the model comparator, sub-multiset of the input, the model's length, key classes equal position by position. Not proved: that SortValues.Less is a strict weak order on comparable columns (it is a hypothesis of the no-inversion theorem and is exercised by the checker on every case).",
+    level_note="Trusted: Coq kernel + vm_compute; primitive floats; Go harness; sort.Sort. Known outside-the-property observation: int/float comparison through float64 above 2^53 (F-C07-4) and strict-equal case variants are not generated.",
+    design_ref="DESIGN.md section 5 (C07)")
